@@ -141,6 +141,8 @@ def length_cases(quick):
         out.append(dline(0, 0, P.push(d) + b"\x76\x6b\x82", (), ops=every(5)))
         out.append(dline(1, 0, (b"\x4d" + n.to_bytes(2, "little") + d) + b"\x6b", (d, b"", d), ops=every(3)))
     out.append(dline(0, 0, b"\x4d\x09\x02" + b"\x11" * 521, (), ops=every(2)))             # 521 bytes: refused
+    for n in (521, 600, 1500):                                                             # initial items are not size-checked: shown whole
+        out.append(dline(0, 0, b"\x76\x6b\x6c", (bytes((k * 3 + n) & 0xff for k in range(n)), b"\x01"), ops=every(4)))
     out.append(dline(0, 0, b"\x61", tuple(bytes([b]) for b in range(256)), ops="SRsSR"))   # every byte value
     out.append(dline(0, 0, b"\x61", (b"", b"", b""), ops="SRsSR"))                          # only empty items
     out.append(dline(0, 0, b"\x00\x00\x6b\x00", (b"",), ops=every(5)))
